@@ -198,6 +198,46 @@ fn extreme_values(acc: &mut Acc) {
     }
 }
 
+/// Every built-in easing (the 31 variants of C13's table), as the timeline's default easing and as the easing of
+/// the keyframes themselves: at the delay, at every keyframe position of both cycles, at the end of each forward
+/// pass and after the end the keyframe values are produced exactly (an easing maps 0 to 0 and 1 to 1, so it cannot
+/// move a value AT a keyframe).
+fn builtin_easings_at_keyframes(acc: &mut Acc) {
+    let init = P::sentinel();
+    let vals: [(f32, i32, f64); 3] = [(8.0, 1000, -2.0), (1000.0, -2000, 64.0), (-8.0, 5000, 0.5)];
+    for (ei, (name, _, _)) in crate::c13::table().iter().enumerate() {
+        for on_keyframes in [false, true] {
+            let e = || crate::c13::table()[ei].1.clone();
+            let mut b = P::timeline().duration_seconds(1.0).delay_seconds(0.5).repeat(Repeat::Times(1));
+            if !on_keyframes {
+                b = b.default_easing(e());
+            }
+            for (i, pos) in [0.0f32, 0.5, 1.0].iter().enumerate() {
+                let mut k = P::keyframe(*pos).a(vals[i].0).k(vals[i].1).d(vals[i].2);
+                if on_keyframes {
+                    k = k.easing(e());
+                }
+                b = b.keyframe(k);
+            }
+            let tl = b.build();
+            acc.timelines += 1;
+            // (time, index of the keyframe whose values must be shown)
+            for (t, vi) in [(0.0f32, 0usize), (0.25, 0), (0.5, 0), (1.0, 1), (1.5, 2), (2.0, 1), (2.5, 2), (2.5000002, 2), (3.0, 2), (1.0e6, 2)] {
+                let got = eval_real(&tl, t, &init);
+                acc.evals += 1;
+                acc.exact_checks += 3;
+                let (wa, wk, wd) = vals[vi];
+                let ok = (got.a - wa).abs() <= 4.0 * ulp32(wa) && got.k == wk && (got.d - wd).abs() <= 4.0 * ulp32(wd as f32) as f64;
+                if !ok {
+                    acc.sink.add(&format!("builtin-easing-moves-a-keyframe-value:{name}"), (6u64 << 60) | (ei as u64) << 8 | on_keyframes as u64, || {
+                        (format!("easing {name} ({}), keyframes 0%/50%/100%, cycle 1 s after 0.5 s, Times(1): at t={t} got a={} k={} d={}, the keyframe there has a={wa} k={wk} d={wd}", if on_keyframes { "on each keyframe" } else { "as default easing" }, got.a, got.k, got.d), json!({"family": "builtin-easings-at-keyframes", "easing": name, "on_keyframes": on_keyframes, "t": t}))
+                    });
+                }
+            }
+        }
+    }
+}
+
 /// Wide (2^j+1 keyframes) and tall (all subsets of a 9-point grid) families of common.rs, evaluated at
 /// exactly every keyframe position (forward, reverse and repeated pass).
 fn wide_tall_pass(thorough: bool) -> Acc {
@@ -338,6 +378,7 @@ pub fn run(run: Run) -> ! {
     nondyadic_end(&mut acc);
     whole_second_cycles(&mut acc);
     extreme_values(&mut acc);
+    builtin_easings_at_keyframes(&mut acc);
     let wt = wide_tall_pass(run.is_thorough());
     let wt_evals = wt.evals;
     acc.sink.merge(wt.sink);
@@ -351,7 +392,7 @@ pub fn run(run: Run) -> ! {
     cov.insert("traces_validated_against_impl".into(), json!(acc.evals));
     cov.insert("evaluations".into(), json!(acc.evals));
     cov.insert("distinct_nontrivial".into(), json!(acc.exact_checks));
-    cov.insert("rule".into(), json!(format!("keyframe lists of size 0..={nmax} with per-property distinct positions (same alphabet as C01, incl. the variant with the f64 property d in place of a below the largest size) x 13 dyadic timing configurations (incl. Times 0/1/2/3, Infinite, reverse) x {{no start, start_with(v*)}} x exact-hit times delay+cycle*(c+p) / reversing delay+cycle*(c+p/2), delay+cycle*(c+1-p/2) for all grid positions p and cycles c<=3, t in {{0,delay/2,delay}}, every forward-pass end, and 6 after-end times (next f32 after total .. f32::MAX); every timeline is additionally evaluated wrapped in MergedTimeline::from (bit-equal); a non-dyadic companion evaluates 336 repeating timelines (cycles 0.1..2.3, delays 0..1.3, Times 1..20, reverse) at exactly the reported duration() and the 8 f32 values after it: the terminal value must be shown; a whole-second companion (every cycle length 1..=64 s x delays 0, 1/2, 3 x Infinite/Times(1)/Times(3) x reverse, at exactly every cycle boundary and half cycle of the first four cycles, same exact oracle: the end of every forward pass shows 100%); an extreme-values companion (neighbouring keyframe values -f32::MAX / f32::MAX, -2^127 / 2^127 for f64, i32::MIN / 2^30, under all 13 timings at every exact-hit and after-end time); plus the WIDE family (2^j+1 keyframes at i/2^j, j in {{4,8,16}} quick / 1..=17 thorough, two property patterns) and the TALL family (every subset of size >= 2 of {{0,1/8,..,1}}) evaluated at exactly every keyframe position in the forward, reverse and repeated pass, with and without start_with; non-trivial = (evaluation, property) whose position coincides with exactly one keyframe of that property, compared exactly (int) / within 4 ulp (float)")));
+    cov.insert("rule".into(), json!(format!("keyframe lists of size 0..={nmax} with per-property distinct positions (same alphabet as C01, incl. the variant with the f64 property d in place of a below the largest size) x 13 dyadic timing configurations (incl. Times 0/1/2/3, Infinite, reverse) x {{no start, start_with(v*)}} x exact-hit times delay+cycle*(c+p) / reversing delay+cycle*(c+p/2), delay+cycle*(c+1-p/2) for all grid positions p and cycles c<=3, t in {{0,delay/2,delay}}, every forward-pass end, and 6 after-end times (next f32 after total .. f32::MAX); every timeline is additionally evaluated wrapped in MergedTimeline::from (bit-equal); a non-dyadic companion evaluates 336 repeating timelines (cycles 0.1..2.3, delays 0..1.3, Times 1..20, reverse) at exactly the reported duration() and the 8 f32 values after it: the terminal value must be shown; a whole-second companion (every cycle length 1..=64 s x delays 0, 1/2, 3 x Infinite/Times(1)/Times(3) x reverse, at exactly every cycle boundary and half cycle of the first four cycles, same exact oracle: the end of every forward pass shows 100%); an extreme-values companion (neighbouring keyframe values -f32::MAX / f32::MAX, -2^127 / 2^127 for f64, i32::MIN / 2^30, under all 13 timings at every exact-hit and after-end time); every built-in easing as default easing and as keyframe easing, evaluated at the delay, at every keyframe position of two cycles and after the end; plus the WIDE family (2^j+1 keyframes at i/2^j, j in {{4,8,16}} quick / 1..=17 thorough, two property patterns) and the TALL family (every subset of size >= 2 of {{0,1/8,..,1}}) evaluated at exactly every keyframe position in the forward, reverse and repeated pass, with and without start_with; non-trivial = (evaluation, property) whose position coincides with exactly one keyframe of that property, compared exactly (int) / within 4 ulp (float)")));
     cov.insert("exhaustive".into(), json!(true));
     cov.insert("max_keyframes".into(), json!(nmax));
     cov.insert("after_end_constancy_groups".into(), json!(acc.after_end_groups));
@@ -361,6 +402,14 @@ pub fn run(run: Run) -> ! {
 }
 
 pub fn replay(case: &Value) -> bool {
+    if case["family"] == "builtin-easings-at-keyframes" {
+        let mut acc = Acc::default();
+        builtin_easings_at_keyframes(&mut acc);
+        for (s, v) in &acc.sink.map {
+            println!("{s}: {}", v.desc);
+        }
+        return acc.sink.map.is_empty();
+    }
     let (spec, start, t, init) = case_from_json(case);
     let rt = RefTl::new(&spec);
     let mut tl = spec.build();
